@@ -297,6 +297,81 @@ func C15(c *Ctx) {
 		r.Floor("R15.4", "direct concluding changes in entries", nf, 3)
 	}
 
+	// R15.6 electorate snapshot
+	r.Rule("R15.6", "electorate snapshot: the electorate recorded in a new proposal is the first result of getElectorate, and the list getElectorate returns is built only from elements appended behind an IsAvailable() test (admins unavailable at creation are not electors).")
+	if ge := c.fn("R15.6", govPrefix+"getElectorate"); ge != nil {
+		availEdges := condEdges(ge, func(f core.Fact, ifi *ssa.If) (bool, int) {
+			if f.Kind != core.FBool {
+				return false, 0
+			}
+			if call, ok := f.Subject.(*ssa.Call); ok {
+				if o := core.CalleeObj(call); o != nil && o.Name() == "IsAvailable" {
+					return true, holdsEdge(f)
+				}
+			}
+			return false, 0
+		})
+		cut := core.CutOf(availEdges)
+		rs := core.Reach([]core.Point{core.EntryOf(ge)}, nil, cut)
+		nret := 0
+		for _, ret := range core.Returns(ge) {
+			if len(ret.Results) < 1 {
+				continue
+			}
+			// only the success return (error result nil) matters
+			if !core.MayBeSuccess(ge, ret, len(ret.Results)-1, core.ConvErrNil) {
+				continue
+			}
+			nret++
+			bad := ""
+			seen := map[ssa.Value]bool{}
+			var walk func(v ssa.Value)
+			walk = func(v ssa.Value) {
+				v = core.Strip(v)
+				if v == nil || seen[v] {
+					return
+				}
+				seen[v] = true
+				switch x := v.(type) {
+				case *ssa.Phi:
+					for _, e := range x.Edges {
+						walk(e)
+					}
+				case *ssa.Const:
+					// nil / empty list
+				case *ssa.MakeSlice:
+				case *ssa.Call:
+					if b, ok := x.Call.Value.(*ssa.Builtin); ok && b.Name() == "append" {
+						if rs.Has(x) {
+							bad = "an element is appended at " + c.P.Pos(x.Pos()) + " without a preceding IsAvailable() test"
+						}
+						walk(x.Call.Args[0])
+						return
+					}
+					bad = "the returned list comes from " + core.CalleeName(x) + " (not filtered by availability)"
+				default:
+					bad = fmt.Sprintf("the returned list is %s at %s, not a list built by availability-guarded appends", v.Name(), c.P.Pos(v.Pos()))
+				}
+			}
+			walk(ret.Results[0])
+			r.Check(bad == "", "R15.6", "getElectorate: returned electorate", c.P.Pos(ret.Pos()), "list built only by appends behind IsAvailable()",
+				"electorate snapshot includes admins that were not available when the proposal was created: "+bad)
+		}
+		r.Floor("R15.6", "success returns of getElectorate", nret, 1)
+		if sp := c.fn("R15.6", govPrefix+"SubmitProposal"); sp != nil {
+			n := 0
+			for _, in := range sites(sp, storesToField("Proposal", "ElectorateList")) {
+				n++
+				st := in.(*ssa.Store)
+				call, idx := core.CallOf(st.Val)
+				ok := call != nil && core.StaticCallee(call) == ge && idx == 0
+				r.Check(ok, "R15.6", "SubmitProposal: ElectorateList", c.P.Pos(in.Pos()), "ElectorateList = getElectorate() result 0",
+					"the proposal's ElectorateList is not the list returned by getElectorate")
+			}
+			r.Floor("R15.6", "ElectorateList stores in SubmitProposal", n, 1)
+		}
+	}
+
 	// R15.5
 	nd := 0
 	want := []string{"StrategyExpression", "ApproveNum", "AgainstNum", "InitialElectorateNum", "AvailableElectorateNum"}
